@@ -341,6 +341,9 @@ class FilesystemStorageBackend(StorageBackendBase):
             metadata_config_path = config_path
         self.metadata_config_path = metadata_config_path
 
+        if memory_cache_mb is None:
+            memory_cache_mb = config.get("memory_cache_mb", None)
+
         data_source = _FilesystemDataSource(self.config_path)
         metadata_source = DataSourceMetadataSource(
             _FilesystemDataSource(self.metadata_config_path)
